@@ -529,7 +529,29 @@ std::string build_crash_case(const std::string &kind_in) {
       }
       lines.push_back(s + sync);
     }
-    else if ((c -= wflush) < 0) lines.push_back("flush");
+    else if ((c -= wflush) < 0) {
+      lines.push_back("flush");
+      // now and then several clients write at once, so that group commit (merged batches, sync and non-sync mixed) is in the trace
+      if (kind != "C12" && chance(c04 ? 45 : 25)) {
+        int T = uni(2, 3);
+        std::vector<int> left(T);
+        int total = 0;
+        for (int t = 0; t < T; t++) { left[t] = uni(1, 4); total += left[t]; }
+        while (total > 0) {
+          int t = uni(0, T - 1);
+          if (!left[t]) continue;
+          left[t]--; total--;
+          std::string sy = chance(sync_pct) ? " sync=1" : "";
+          if (chance(55)) lines.push_back(fmt("thread %d put ", t) + gen_key(p) + " " + crash_val(p, c04) + sy);
+          else {
+            int n = uni(2, c04 ? 12 : 5);
+            std::string b = fmt("thread %d batch", t);
+            for (int j = 0; j < n; j++) b += chance(80) ? " p:" + gen_key(p) + ":" + crash_val(p, false) : " d:" + gen_key(p);
+            lines.push_back(b + sy);
+          }
+        }
+      }
+    }
     else if ((c -= wcr) < 0) lines.push_back(fmt("crange %d - -", pick<int>({{5, 0}, {3, 1}, {1, 2}})));
     else if ((c -= wcomp) < 0) lines.push_back("compact");
     else if ((c -= wreopen) < 0) {
